@@ -78,6 +78,8 @@ func main() {
 			switch prop {
 			case "C05":
 				code = checkC05(p)
+			case "C13":
+				code = checkC13(p)
 			default:
 				fail("no check for property %s", prop)
 			}
